@@ -19,6 +19,11 @@ class InvalidTypeError(TypeParameterError):
 
 class Attribute(_expression.Any):
     def __init__(self, data_type: SerializableType, name: str, doc: str = ""):
+        from ._composite import ServiceType  # Local import to break the circular dependency.
+
+        if isinstance(data_type, ServiceType):
+            raise InvalidTypeError("Service types are not serializable and cannot be used as attribute types")
+
         self._data_type = data_type
         self._name = str(name)
         self._doc = str(doc)
